@@ -134,6 +134,8 @@ func init() {
 		"\tcase int:\n\t\tif vv < 0 {\n\t\t\treturn -vv", "\tcase int:\n\t\tif vv > 0 {\n\t\t\treturn -vv", "Number.Length:int")
 	add("c08-numlen-big-arm-dropped", "C08.numlen", T,
 		"\tcase *big.Int:\n\t\tif vv.Sign() < 0 {\n\t\t\treturn new(big.Int).Abs(vv)\n\t\t}\n\t}\n\treturn v.V", "\t}\n\treturn v.V", "Number.Length:*math/big.Int")
+	add("c08-numlen-float-negzero", "C08.numlen", T,
+		"\tcase float64:\n\t\treturn math.Abs(vv)\n", "\tcase float64:\n\t\tif vv < 0 {\n\t\t\treturn -vv\n\t\t}\n", "Number.Length:float64")
 	add("c08-strnum-valid-inverted", "C08.strnum", T,
 		"if !gojq.ValidNumber(string(v)) {", "if gojq.ValidNumber(string(v)) {", "String.ToNumber")
 	add("c08-lazy-called-inverted", "C08.lazy", T,
